@@ -28,7 +28,7 @@ def number(rng, bits=16, allow_neg=False):
     """A literal in a random spelling."""
     top = (1 << bits) - 1
     v = rng.choice([0, 1, 2, 15, 16, 31, 32, 100, 127, 128, 129, 255, 256, 257, 1000, 4095, 32767, 32768, 65535,
-                    rng.below(256), rng.below(65536)])
+                    0x0E10, 0x1000, 0xFF00, rng.below(256), rng.below(65536)])
     v = min(v, top)
     style = rng.below(10)
     if allow_neg and style == 9 and v:
@@ -173,7 +173,13 @@ class ProgGen(object):
             stmts.append({"label": "", "mn": "NAM", "op": rng.choice(["PROG", "test", "Hello12", "LONGNAME123", "A", "x9"]), "comment": ""})
         for e in self.equs:
             if rng.chance(0.7):
-                stmts.append({"label": e, "mn": "EQU", "op": number(rng, 16), "comment": ""})
+                op = number(rng, 16)
+                if len(self.equs) > 1 and rng.chance(0.12):
+                    # a symbol defined as another symbol (or a label): alias chains, possibly running into a cycle
+                    op = rng.choice([x for x in self.equs if x != e] + self.labels[:1])
+                stmts.append({"label": e, "mn": "EQU", "op": op, "comment": ""})
+        if rng.chance(0.08):
+            stmts.append({"label": "", "mn": "SETDP", "op": rng.choice(["$0E", "$10", "$FF", "0", "$E"]), "comment": ""})
         if rng.chance(0.7):
             stmts.append({"label": "", "mn": "ORG", "op": rng.choice(["$0", "$E00", "$1000", "$3F00", "$7FF0", "$C000", "$FF00", "$80", "3584", str(rng.below(65536))]), "comment": ""})
         body = []
